@@ -240,6 +240,7 @@ Inductive event :=
 | EAccept                      (* a session operation passed the disabled() test *)
 | ESpawn                       (* a worker thread was started *)
 | EDone                        (* the worker's future became ready *)
+| ECleanup                     (* Service::CleanupAllSessions entered (yield hook RIME_VERIF_CLEANUPALL_ENTER) *)
 | EBadCall                     (* Notify called an empty std::function *)
 | EJoinThrow.                  (* work_.get() rethrew *)
 
@@ -394,7 +395,7 @@ Definition get_session (o : sop) (sid : nat) (s : state) : state :=
 Definition step_call (c : cfg) (cl : call) (s : state) : option state :=
   match cl with
   | CStartMaint rs => Some (set_cpcs (after_sched rs KMaint) s)
-  | CSyncUser rs => Some (set_cpcs (after_sched rs KSync) (set_sessions [] s))
+  | CSyncUser rs => Some (set_cpcs (after_sched rs KSync) (set_sessions [] (emit ECleanup s)))
   | CIsMaint => Some (emit (ERet RIsMaint (b2n (is_maint s))) s)
   | CJoin =>
       match work s with
